@@ -29,20 +29,338 @@ Definition head_of (r : record) : rrhead :=
   mkHead (r_type r) (r_ttl r) (if (r_type r =? 1) || (r_type r =? 28) then r_weight r else 0)
          (nlen (row_of r) - nlen (r_rdata r)).
 
+Lemma to_nat_nlen : forall {A} (l : list A), N.to_nat (nlen l) = length l.
+Proof. intros. unfold nlen. lia. Qed.
+Lemma nlen_app : forall {A} (x y : list A), nlen (x ++ y) = nlen x + nlen y.
+Proof. intros. unfold nlen. rewrite app_length. lia. Qed.
+
+Lemma idx_app : forall x c y n, n = nlen x -> idx (x ++ c :: y) n = Val c.
+Proof.
+  intros x c y n ->. unfold idx. rewrite to_nat_nlen, nth_error_app2, Nat.sub_diag; [reflexivity | lia].
+Qed.
+Lemma slice_mid : forall x y z a b, a = nlen x -> b = nlen x + nlen y -> slice (x ++ y ++ z) a b = Val y.
+Proof.
+  intros x y z a b -> ->. unfold slice. rewrite !nlen_app.
+  assert (E : (nlen x <=? nlen x + nlen y) && (nlen x + nlen y <=? nlen x + (nlen y + nlen z)) = true) by lia.
+  rewrite E. replace (nlen x + nlen y - nlen x) with (nlen y) by lia. rewrite !to_nat_nlen.
+  rewrite skipn_app, skipn_all, Nat.sub_diag. cbn [skipn app].
+  rewrite firstn_app, firstn_all, Nat.sub_diag. cbn [firstn]. rewrite app_nil_r. reflexivity.
+Qed.
+Lemma slice_from_app : forall x y a, a = nlen x -> slice_from (x ++ y) a = Val y.
+Proof.
+  intros x y a ->. unfold slice_from. rewrite nlen_app.
+  assert (E : (nlen x <=? nlen x + nlen y) = true) by lia. rewrite E, to_nat_nlen.
+  rewrite skipn_app, skipn_all, Nat.sub_diag. reflexivity.
+Qed.
+
+(* the decoder on the concatenation the compiler writes *)
+Lemma extract_parts : forall t0 t1 ch M l0 l1 l2 l3 W R wild,
+  nlen M = (if (ch =? 62) || (ch =? 43) then 2 else 0) ->
+  (if (t0 * 256 + t1 =? 1) || (t0 * 256 + t1 =? 28) then exists w0 w1 w2 w3, W = [w0; w1; w2; w3] else W = []) ->
+  let row := [t0; t1] ++ ch :: M ++ [l0; l1; l2; l3] ++ [0; 0; 0; 0; 0; 0; 0; 0] ++ W ++ R in
+  extract_rr row wild =
+    Val (if negb (Bool.eqb wild ((ch =? 42) || (ch =? 43))) then None
+         else Some (mkHead (t0 * 256 + t1) (((l0 * 256 + l1) * 256 + l2) * 256 + l3)
+                           (match W with [w0; w1; w2; w3] => ((w0 * 256 + w1) * 256 + w2) * 256 + w3 | _ => 0 end)
+                           (nlen row - nlen R))) /\
+  slice_from row (nlen row - nlen R) = Val R.
+Proof.
+  intros t0 t1 ch M l0 l1 l2 l3 W R wild HM HW row. split.
+  - unfold extract_rr.
+    assert (S1 : slice row 0 2 = Val [t0; t1]) by (apply (slice_mid [] [t0; t1]); reflexivity).
+    rewrite S1. cbn [bind].
+    assert (S2 : idx row 2 = Val ch) by (apply (idx_app [t0; t1]); reflexivity).
+    rewrite S2. cbn [bind].
+    destruct (negb (Bool.eqb wild ((ch =? 42) || (ch =? 43)))); [reflexivity|].
+    set (dpos := if (ch =? 62) || (ch =? 43) then 5 else 3).
+    assert (Hd : dpos = nlen ([t0; t1] ++ ch :: M)).
+    { rewrite nlen_app, (nlen_cons ch M), HM. unfold dpos. destruct ((ch =? 62) || (ch =? 43)); reflexivity. }
+    assert (S3 : slice row dpos (dpos + 4) = Val [l0; l1; l2; l3]).
+    { unfold row. change ([t0; t1] ++ ch :: M ++ [l0; l1; l2; l3] ++ [0; 0; 0; 0; 0; 0; 0; 0] ++ W ++ R)
+        with ([t0; t1] ++ (ch :: M) ++ [l0; l1; l2; l3] ++ [0; 0; 0; 0; 0; 0; 0; 0] ++ W ++ R).
+      rewrite (app_assoc [t0; t1]). apply slice_mid; [exact Hd | rewrite Hd; reflexivity]. }
+    rewrite S3. cbn [bind rd_u32be].
+    destruct ((t0 * 256 + t1 =? 1) || (t0 * 256 + t1 =? 28)) eqn:EA.
+    + destruct HW as (w0 & w1 & w2 & w3 & ->).
+      assert (S4 : slice row (dpos + 12) (dpos + 12 + 4) = Val [w0; w1; w2; w3]).
+      { unfold row. change ([t0; t1] ++ ch :: M ++ [l0; l1; l2; l3] ++ [0; 0; 0; 0; 0; 0; 0; 0] ++ [w0; w1; w2; w3] ++ R)
+          with ([t0; t1] ++ (ch :: M) ++ [l0; l1; l2; l3] ++ [0; 0; 0; 0; 0; 0; 0; 0] ++ [w0; w1; w2; w3] ++ R).
+        rewrite (app_assoc [t0; t1]), (app_assoc ([t0; t1] ++ ch :: M)), (app_assoc (([t0; t1] ++ ch :: M) ++ [l0; l1; l2; l3])).
+        apply slice_mid; rewrite Hd, !nlen_app; unfold nlen; cbn [length]; lia. }
+      rewrite S4. cbn [bind rd_u32be]. do 3 f_equal.
+      unfold row, nlen in *. repeat (rewrite ?app_length in *; cbn [length] in * ). lia.
+    + subst W. do 3 f_equal.
+      unfold row, nlen in *. repeat (rewrite ?app_length in *; cbn [length] in * ). lia.
+  - unfold row.
+    change ([t0; t1] ++ ch :: M ++ [l0; l1; l2; l3] ++ [0; 0; 0; 0; 0; 0; 0; 0] ++ W ++ R)
+      with ([t0; t1] ++ (ch :: M) ++ [l0; l1; l2; l3] ++ [0; 0; 0; 0; 0; 0; 0; 0] ++ W ++ R).
+    rewrite (app_assoc [t0; t1]), (app_assoc ([t0; t1] ++ ch :: M)), (app_assoc (([t0; t1] ++ ch :: M) ++ [l0; l1; l2; l3])),
+            (app_assoc ((([t0; t1] ++ ch :: M) ++ [l0; l1; l2; l3]) ++ [0; 0; 0; 0; 0; 0; 0; 0])).
+    apply slice_from_app. rewrite (nlen_app _ R). lia.
+Qed.
+
+
+(* decoding the row of a declared record gives back the record's fields *)
 Lemma extract_row_of : forall r wild, wf_rec r ->
   extract_rr (row_of r) wild = Val (if Bool.eqb wild (r_wild r) then Some (head_of r) else None) /\
   slice_from (row_of r) (h_off (head_of r)) = Val (r_rdata r).
 Proof.
   intros r wild (Ht & Httl & Hw & _ & Hl).
   pose proof (u16_rt _ Ht) as E16. pose proof (u32_rt _ Httl) as E32. pose proof (u32_rt _ Hw) as E32w.
-  unfold head_of, row_of, extract_rr, u16be, u32be.
-  destruct (r_loc r) as [l|]; [destruct Hl as (a & b & -> & _)|];
-  destruct (r_wild r); destruct wild;
-  destruct ((r_type r =? 1) || (r_type r =? 28)) eqn:EA;
-  cbn [app];
-  unfold slice, slice_from, idx; rewrite !nlen_cons;
-  repeat match goal with |- context [?x <=? ?y] =>
-    let H := fresh in assert (H : (x <=? y) = true) by lia; rewrite H; clear H end;
-  cbn [andb bind N.to_nat Pos.to_nat Pos.iter_op Nat.add nth_error skipn firstn N.sub Pos.sub_mask Pos.succ_double_mask Pos.double_mask Pos.double_pred_mask Pos.pred_double];
-  admit.
-Abort.
+  set (W := if (r_type r =? 1) || (r_type r =? 28) then u32be (r_weight r) else []).
+  assert (HW : if ((r_type r / 256) mod 256 * 256 + r_type r mod 256 =? 1) || ((r_type r / 256) mod 256 * 256 + r_type r mod 256 =? 28)
+               then exists w0 w1 w2 w3, W = [w0; w1; w2; w3] else W = []).
+  { rewrite E16. unfold W. destruct ((r_type r =? 1) || (r_type r =? 28)); [unfold u32be; eauto 6 | reflexivity]. }
+  assert (Wv : match W with [w0; w1; w2; w3] => ((w0 * 256 + w1) * 256 + w2) * 256 + w3 | _ => 0 end =
+               (if (r_type r =? 1) || (r_type r =? 28) then r_weight r else 0)).
+  { unfold W. destruct ((r_type r =? 1) || (r_type r =? 28)); [unfold u32be; exact E32w | reflexivity]. }
+  unfold head_of. cbn [h_off].
+  destruct (r_loc r) as [l|] eqn:EL; [destruct Hl as (a & b & -> & _)|]; destruct (r_wild r) eqn:EW.
+  - pose proof (extract_parts ((r_type r / 256) mod 256) (r_type r mod 256) 43 [a; b] ((r_ttl r / 16777216) mod 256) ((r_ttl r / 65536) mod 256) ((r_ttl r / 256) mod 256) (r_ttl r mod 256) W (r_rdata r) wild eq_refl HW) as [P1 P2].
+    cbv zeta in P1, P2. rewrite E16, E32, Wv in P1.
+    unfold row_of. rewrite EL, EW. fold W. split; [|exact P2].
+    etransitivity; [exact P1|]. destruct wild; reflexivity.
+  - pose proof (extract_parts ((r_type r / 256) mod 256) (r_type r mod 256) 62 [a; b] ((r_ttl r / 16777216) mod 256) ((r_ttl r / 65536) mod 256) ((r_ttl r / 256) mod 256) (r_ttl r mod 256) W (r_rdata r) wild eq_refl HW) as [P1 P2].
+    cbv zeta in P1, P2. rewrite E16, E32, Wv in P1.
+    unfold row_of. rewrite EL, EW. fold W. split; [|exact P2].
+    etransitivity; [exact P1|]. destruct wild; reflexivity.
+  - pose proof (extract_parts ((r_type r / 256) mod 256) (r_type r mod 256) 42 [] ((r_ttl r / 16777216) mod 256) ((r_ttl r / 65536) mod 256) ((r_ttl r / 256) mod 256) (r_ttl r mod 256) W (r_rdata r) wild eq_refl HW) as [P1 P2].
+    cbv zeta in P1, P2. rewrite E16, E32, Wv in P1.
+    unfold row_of. rewrite EL, EW. fold W. split; [|exact P2].
+    etransitivity; [exact P1|]. destruct wild; reflexivity.
+  - pose proof (extract_parts ((r_type r / 256) mod 256) (r_type r mod 256) 61 [] ((r_ttl r / 16777216) mod 256) ((r_ttl r / 65536) mod 256) ((r_ttl r / 256) mod 256) (r_ttl r mod 256) W (r_rdata r) wild eq_refl HW) as [P1 P2].
+    cbv zeta in P1, P2. rewrite E16, E32, Wv in P1.
+    unfold row_of. rewrite EL, EW. fold W. split; [|exact P2].
+    etransitivity; [exact P1|]. destruct wild; reflexivity.
+Qed.
+
+(* ---------------------------------------------------------------- scanning the rows of records *)
+Lemma iter_auth_rows : forall rs ns auth, Forall wf_rec rs ->
+  iter_rows auth_cb (map row_of rs) (ns, auth) =
+    ((ns || existsb (fun r => negb (r_wild r) && (r_type r =? 2)) rs,
+      auth || existsb (fun r => negb (r_wild r) && (r_type r =? 6)) rs), Cont).
+Proof.
+  induction rs as [|r t IH]; intros ns auth W; cbn [map iter_rows existsb].
+  - rewrite !orb_false_r. reflexivity.
+  - inversion W as [|? ? Wr Wt]; subst. unfold auth_cb at 1.
+    rewrite (proj1 (extract_row_of r false Wr)).
+    destruct (r_wild r); cbn [Bool.eqb negb andb orb].
+    + rewrite IH by exact Wt. reflexivity.
+    + unfold head_of; cbn [h_type].
+      destruct (r_type r =? 6) eqn:E6.
+      * apply N.eqb_eq in E6. rewrite IH by exact Wt. rewrite E6. cbn. rewrite orb_true_r. reflexivity.
+      * destruct (r_type r =? 2) eqn:E2; rewrite IH by exact Wt; cbn; [rewrite orb_true_r|]; reflexivity.
+Qed.
+
+(* ---------------------------------------------------------------- names and keys *)
+Definition wf_name (n : name) : Prop := Forall wf_label n.
+
+Lemma pack_inj : forall a b : name, pack a = pack b -> a = b.
+Proof.
+  induction a as [|x a IH]; destruct b as [|y b]; unfold pack; cbn [flat_map app]; intros H; try reflexivity.
+  - destruct y; cbn in H; inversion H. destruct (flat_map (fun l => nlen l :: l) b); discriminate.
+  - destruct x; cbn in H; inversion H. destruct (flat_map (fun l => nlen l :: l) a); discriminate.
+  - inversion H as [[Hn Ht]]. rewrite <- !app_assoc in Ht.
+    assert (Hl : length x = length y) by (unfold nlen in Hn; lia).
+    assert (Hx : x = y /\ flat_map (fun l => nlen l :: l) a ++ [0] = flat_map (fun l => nlen l :: l) b ++ [0]).
+    { clear -Ht Hl. revert y Hl Ht. induction x as [|c x IHx]; destruct y as [|d y]; cbn; intros Hl Ht; try discriminate.
+      - split; [reflexivity | exact Ht].
+      - inversion Ht; subst. destruct (IHx y) as [-> E]; auto. }
+    destruct Hx as [-> Hp]. f_equal. apply IH. exact Hp.
+Qed.
+
+Lemma label_eqb_lower : forall a b, lower_label a -> lower_label b -> label_eqb a b = true -> a = b.
+Proof.
+  induction a as [|x a IH]; destruct b as [|y b]; cbn; intros Ha Hb H; try reflexivity; try discriminate.
+  apply andb_prop in H as [H1 H2].
+  assert (x = y).
+  { pose proof (Ha x (or_introl eq_refl)). pose proof (Hb y (or_introl eq_refl)). unfold lowerb in H1.
+    destruct ((65 <=? x) && (x <=? 90)) eqn:Ex; destruct ((65 <=? y) && (y <=? 90)) eqn:Ey; lia. }
+  subst. f_equal. apply IH; [intros c Hc; apply Ha; right; exact Hc | intros c Hc; apply Hb; right; exact Hc | exact H2].
+Qed.
+Lemma label_eqb_refl : forall a, label_eqb a a = true.
+Proof. induction a; cbn; [reflexivity|]. rewrite N.eqb_refl. exact IHa. Qed.
+Lemma name_eqb_refl : forall a, name_eqb a a = true.
+Proof. induction a; cbn; [reflexivity|]. rewrite label_eqb_refl. exact IHa. Qed.
+Lemma name_eqb_lower : forall a b, wf_name a -> wf_name b -> name_eqb a b = true -> a = b.
+Proof.
+  induction a as [|x a IH]; destruct b as [|y b]; cbn; intros Ha Hb H; try reflexivity; try discriminate.
+  apply andb_prop in H as [H1 H2]. inversion Ha; inversion Hb; subst.
+  f_equal; [apply label_eqb_lower; try assumption; [apply H3 | apply H7] | apply IH; assumption].
+Qed.
+
+Section Compiled.
+Variable recs : list record.
+Variable L : bytes.
+Hypothesis W : wf_recs recs.
+Hypothesis HL : length L = 2%nat.
+
+Lemma wf_recs_locs : wf_locs recs.
+Proof.
+  intros r l Hin E. unfold wf_recs in W. rewrite Forall_forall in W. destruct (W r Hin) as (_ & _ & _ & _ & Hl).
+  rewrite E in Hl. destruct Hl as (a & b & -> & Hne). split; [reflexivity | exact Hne].
+Qed.
+
+(* the two keys probed for name n hold exactly the records of n visible to L *)
+Lemma probed_iff : forall r n, In r recs -> wf_name n ->
+  (bytes_eqb (key_v1 r) (L ++ pack n) || bytes_eqb (key_v1 r) (loc0 ++ pack n)) =
+  (visible L r && name_eqb (r_owner r) n).
+Proof.
+  intros r n Hin Hn.
+  pose proof W as W'. unfold wf_recs in W'. rewrite Forall_forall in W'. destruct (W' r Hin) as (_ & _ & _ & Ho & Hl).
+  destruct (bytes_eqb (key_v1 r) (L ++ pack n) || bytes_eqb (key_v1 r) (loc0 ++ pack n)) eqn:E.
+  - symmetry. apply orb_prop in E.
+    assert (V : visible L r = true).
+    { apply (probed_visible recs L (pack n) r wf_recs_locs HL Hin).
+      destruct E as [E|E]; apply bytes_eqb_eq in E; [left | right]; exact E. }
+    rewrite V. cbn [andb].
+    assert (P : pack (r_owner r) = pack n).
+    { unfold key_v1 in E. destruct E as [E|E]; apply bytes_eqb_eq in E.
+      - apply app2_inj in E as [_ E]; [exact E | | exact HL].
+        unfold loc_bytes. destruct (r_loc r) as [l|]; [destruct Hl as (a & b & -> & _)|]; reflexivity.
+      - apply app2_inj in E as [_ E]; [exact E | | reflexivity].
+        unfold loc_bytes. destruct (r_loc r) as [l|]; [destruct Hl as (a & b & -> & _)|]; reflexivity. }
+    apply pack_inj in P. rewrite P. apply name_eqb_refl.
+  - symmetry. destruct (visible L r) eqn:V; [|reflexivity]. cbn [andb].
+    destruct (name_eqb (r_owner r) n) eqn:N; [|reflexivity].
+    apply name_eqb_lower in N; [|exact Ho | exact Hn]. subst n.
+    apply orb_false_elim in E as [E1 E2]. unfold key_v1, visible, loc_bytes in *.
+    destruct (r_loc r) as [l|].
+    + apply bytes_eqb_eq in V. subst l. rewrite bytes_eqb_refl in E1. discriminate.
+    + unfold loc0 in E2. rewrite bytes_eqb_refl in E2. discriminate.
+Qed.
+End Compiled.
+
+Lemma existsb_filter : forall {A} (p q : A -> bool) l, existsb p (filter q l) = existsb (fun x => q x && p x) l.
+Proof. induction l as [|x l IH]; cbn; [reflexivity|]. destruct (q x); cbn; rewrite IH; reflexivity. Qed.
+Lemma existsb_or : forall {A} (f g : A -> bool) l, existsb f l || existsb g l = existsb (fun x => f x || g x) l.
+Proof.
+  induction l as [|x l IH]; cbn; [reflexivity|]. rewrite <- IH.
+  destruct (f x), (g x), (existsb f l), (existsb g l); reflexivity.
+Qed.
+Lemma existsb_ext_in : forall {A} (f g : A -> bool) l, (forall x, In x l -> f x = g x) -> existsb f l = existsb g l.
+Proof.
+  induction l as [|x l IH]; intros H; cbn; [reflexivity|].
+  rewrite (H x (or_introl eq_refl)), IH; [reflexivity | intros y Hy; apply H; right; exact Hy].
+Qed.
+Lemma nonempty_filter : forall {A} (p : A -> bool) l, nonempty (filter p l) = existsb p l.
+Proof. induction l as [|x l IH]; cbn; [reflexivity|]. destruct (p x); cbn; [reflexivity | exact IH]. Qed.
+Lemma Forall_filter : forall {A} (P : A -> Prop) (p : A -> bool) l, Forall P l -> Forall P (filter p l).
+Proof. induction l; cbn; intros H; [constructor|]. inversion H; subst. destruct (p a); [constructor|]; auto. Qed.
+
+Section Walk.
+Variable b : backend.
+Variable recs : list record.
+Variable L : bytes.
+Hypothesis W : wf_recs recs.
+Hypothesis HL : length L = 2%nat.
+Hypothesis Hb : b <> RDB2.
+Let st := store_v1 recs.
+
+Definition has_type_at (t : N) (n : name) : bool := nonempty (of_type t (own_records L recs n)).
+
+Lemma has_type_at_existsb : forall t n,
+  has_type_at t n = existsb (fun r => (visible L r && name_eqb (r_owner r) n) && (negb (r_wild r) && (r_type r =? t))) recs.
+Proof.
+  intros. unfold has_type_at, of_type, own_records. rewrite nonempty_filter, existsb_filter.
+  apply existsb_ext_in. intros r _. destruct (visible L r), (r_wild r), (name_eqb (r_owner r) n); reflexivity.
+Qed.
+
+Lemma scan_key : forall key ns auth,
+  for_each_v1 b st key auth_cb (ns, auth) =
+    ((ns || existsb (fun r => bytes_eqb (key_v1 r) key && (negb (r_wild r) && (r_type r =? 2))) recs,
+      auth || existsb (fun r => bytes_eqb (key_v1 r) key && (negb (r_wild r) && (r_type r =? 6))) recs), false).
+Proof.
+  intros. unfold for_each_v1, st, store_v1. rewrite get_store_of, rows_for_v1, iter_auth_rows.
+  - rewrite !existsb_filter. reflexivity.
+  - apply Forall_filter. exact W.
+Qed.
+
+(* one iteration of the IsAuthoritative loop at name n *)
+Lemma auth_step : forall n ns auth, wf_name n ->
+  let '(ns1, auth1, e1) :=
+      if is_loc0 L then (ns, auth, false) else for_each_v1 b st (L ++ pack n) auth_cb (ns, auth) in
+  e1 = false /\
+  let '(ns2, auth2, e2) :=
+      if auth1 && ns1 then (ns1, auth1, false) else for_each_v1 b st (loc0 ++ pack n) auth_cb (ns1, auth1) in
+  e2 = false /\ ns2 = ns || has_type_at 2 n /\ auth2 = auth || has_type_at 6 n.
+Proof.
+  intros n ns auth Hn.
+  assert (K : forall t,
+     existsb (fun r => bytes_eqb (key_v1 r) (L ++ pack n) && (negb (r_wild r) && (r_type r =? t))) recs ||
+     existsb (fun r => bytes_eqb (key_v1 r) (loc0 ++ pack n) && (negb (r_wild r) && (r_type r =? t))) recs = has_type_at t n).
+  { intros t. rewrite has_type_at_existsb, existsb_or. apply existsb_ext_in. intros r Hin.
+    rewrite <- (probed_iff recs L W HL r n Hin Hn).
+    destruct (bytes_eqb (key_v1 r) (L ++ pack n)), (bytes_eqb (key_v1 r) (loc0 ++ pack n)), (negb (r_wild r) && (r_type r =? t)); reflexivity. }
+  destruct (is_loc0 L) eqn:EL.
+  - apply bytes_eqb_eq in EL. split; [reflexivity|].
+    assert (K0 : forall t, existsb (fun r => bytes_eqb (key_v1 r) (loc0 ++ pack n) && (negb (r_wild r) && (r_type r =? t))) recs = has_type_at t n).
+    { intros t. rewrite <- K. rewrite EL. destruct (existsb _ recs); reflexivity. }
+    destruct (auth && ns) eqn:EA.
+    + apply andb_prop in EA as [-> ->]. repeat split; reflexivity.
+    + rewrite scan_key, !K0. repeat split; reflexivity.
+  - rewrite scan_key. split; [reflexivity|].
+    match goal with |- context [if ?c then _ else _] => destruct c eqn:EA end.
+    + apply andb_prop in EA as [EA1 EA2]. split; [reflexivity|]. rewrite <- !K.
+      revert EA1 EA2.
+      generalize (existsb (fun r => bytes_eqb (key_v1 r) (L ++ pack n) && (negb (r_wild r) && (r_type r =? 2))) recs).
+      generalize (existsb (fun r => bytes_eqb (key_v1 r) (L ++ pack n) && (negb (r_wild r) && (r_type r =? 6))) recs).
+      generalize (existsb (fun r => bytes_eqb (key_v1 r) (loc0 ++ pack n) && (negb (r_wild r) && (r_type r =? 2))) recs).
+      generalize (existsb (fun r => bytes_eqb (key_v1 r) (loc0 ++ pack n) && (negb (r_wild r) && (r_type r =? 6))) recs).
+      intros x1 x2 x3 x4 EA1 EA2. destruct ns, auth, x1, x2, x3, x4; cbn in *; try discriminate; split; reflexivity.
+    + rewrite scan_key, <- !K. split; [reflexivity|]. split; rewrite orb_assoc; reflexivity.
+Qed.
+
+Lemma pack_cons : forall l (p : name), pack (l :: p) = (nlen l :: l) ++ pack p.
+Proof. intros. unfold pack. cbn [flat_map]. rewrite <- app_assoc. reflexivity. Qed.
+
+Lemma soa_implies_ns : forall n, wf_name n -> wf_view L recs = true ->
+  has_type_at 6 n = true -> has_type_at 2 n = true.
+Proof.
+  intros n Hn V H. unfold has_type_at, of_type in H. rewrite nonempty_filter in H.
+  apply existsb_exists in H as [r [Hin Ht]]. unfold own_records in Hin. apply filter_In in Hin as [Hin Hc].
+  apply andb_prop in Hc as [Hc Hname]. apply andb_prop in Hc as [Hv Hw].
+  unfold wf_view in V. rewrite forallb_forall in V. specialize (V r Hin).
+  rewrite Hv, Hw, Ht in V. cbn in V.
+  pose proof W as W'. unfold wf_recs in W'. rewrite Forall_forall in W'. destruct (W' r Hin) as (_ & _ & _ & Ho & _).
+  apply name_eqb_lower in Hname; [|exact Ho | exact Hn]. subst n. exact V.
+Qed.
+
+(* DataReader.IsAuthoritative over the compiled store computes the spec's zone cut *)
+Lemma is_auth_walk : forall n fuel, wf_name n -> wf_view L recs = true -> (length (pack n) < fuel)%nat ->
+  is_auth_v1 b st fuel (pack n) L false false =
+    Val (match zone_cut L recs n with
+         | Some z => mkAuth true (authoritative L recs z) (pack z) false
+         | None => mkAuth false false [0] false
+         end).
+Proof.
+  induction n as [|l p IH]; intros fuel Hn V Hf; (destruct fuel as [|fuel]; [lia|]); cbn [is_auth_v1].
+  - pose proof (auth_step [] false false Hn) as H.
+    destruct (if is_loc0 L then (false, false, false) else for_each_v1 b st (L ++ pack []) auth_cb (false, false)) as [[ns1 auth1] e1].
+    destruct H as [-> H].
+    destruct (if auth1 && ns1 then (ns1, auth1, false) else for_each_v1 b st (loc0 ++ pack []) auth_cb (ns1, auth1)) as [[ns2 auth2] e2].
+    destruct H as (-> & -> & ->). cbn [orb zone_cut].
+    change (nonempty (of_type 2 (own_records L recs []))) with (has_type_at 2 []).
+    destruct (has_type_at 2 []) eqn:E2; [reflexivity|].
+    assert (E6 : has_type_at 6 [] = false).
+    { destruct (has_type_at 6 []) eqn:E6; [|reflexivity]. rewrite (soa_implies_ns [] Hn V E6) in E2. discriminate. }
+    rewrite E6. reflexivity.
+  - pose proof (auth_step (l :: p) false false Hn) as H.
+    destruct (if is_loc0 L then (false, false, false) else for_each_v1 b st (L ++ pack (l :: p)) auth_cb (false, false)) as [[ns1 auth1] e1].
+    destruct H as [-> H].
+    destruct (if auth1 && ns1 then (ns1, auth1, false) else for_each_v1 b st (loc0 ++ pack (l :: p)) auth_cb (ns1, auth1)) as [[ns2 auth2] e2].
+    destruct H as (-> & -> & ->). cbn [orb zone_cut].
+    change (nonempty (of_type 2 (own_records L recs (l :: p)))) with (has_type_at 2 (l :: p)).
+    destruct (has_type_at 2 (l :: p)) eqn:E2; [reflexivity|].
+    assert (E6 : has_type_at 6 (l :: p) = false).
+    { destruct (has_type_at 6 (l :: p)) eqn:E6; [|reflexivity]. rewrite (soa_implies_ns _ Hn V E6) in E2. discriminate. }
+    rewrite E6. inversion Hn as [|? ? Hl Hp]; subst. destruct Hl as [[Hl1 Hl2] _].
+    rewrite pack_cons. cbn [app]. unfold idx. cbn [N.to_nat nth_error bind].
+    assert (Ez : (nlen l =? 0) = false) by lia. rewrite Ez.
+    assert (Hb8 : b8 (1 + nlen l) = 1 + nlen l) by (unfold b8; apply N.mod_small; lia). rewrite Hb8.
+    change (nlen l :: l ++ pack p) with ((nlen l :: l) ++ pack p).
+    rewrite (slice_from_app (nlen l :: l) (pack p)) by (rewrite nlen_cons; reflexivity). cbn [bind].
+    apply IH; [exact Hp | exact V|].
+    rewrite pack_cons, app_length in Hf. cbn [length] in Hf. lia.
+Qed.
+End Walk.
